@@ -216,24 +216,6 @@ def f_ungrouped_summarize_aggregates_dropped(prog, idxs, ctx):
     return False
 
 
-def f_outer_join_nonstrict_computed_column(prog, idxs, ctx):
-    steps = prog["steps"]
-    for i in idxs:
-        st = steps[i]
-        if st["verb"] != "join" or st["how"] not in ("left", "full"):
-            continue
-        sides = [st["right"]] + ([st["in"]] if st["how"] == "full" else [])
-        for side in sides:
-            for j in ancestors(prog, side):
-                s2 = steps[j]
-                if s2["verb"] == "mutate":
-                    for _n, e in s2["kw"]:
-                        # (pure constants are detected by requires_subquery and compiled through a subquery: not this finding)
-                        if has_col(e) and not strict(e):
-                            return True
-    return False
-
-
 def f_window_without_arrange_after_arrange_verb(prog, idxs, ctx):
     steps = prog["steps"]
     arranged = set()
@@ -335,7 +317,6 @@ FEATURES = {
     "group_by_constant_column": f_group_by_constant_column,
     "agg_or_window_over_constant": f_agg_or_window_over_constant,
     "ungrouped_summarize_aggregates_dropped": f_ungrouped_summarize_aggregates_dropped,
-    "outer_join_nonstrict_computed_column": f_outer_join_nonstrict_computed_column,
     "window_without_arrange_after_arrange_verb": f_window_without_arrange_after_arrange_verb,
 }
 
